@@ -25,7 +25,9 @@ package batching
 //@   ensures ret != nil ==> (forall i2 in 0..len(s.pending) :: s.pending[i2] == old(s.pending)[i2 + len(ret.items)]) // C05 C06
 // the batch handed to the worker is not reachable through the queue any more: a later Append writes past the end of
 // s.pending, into its spare capacity, and must not overwrite an item whose callback has yet to run (C06)
-//@   ensures ret != nil ==> separate(ret.items, s.pending) // C06
+//@   ensures ret != nil ==> separate(ret.items, s.pending) // C06 C05 C02 C07 C10 C11 C16
 //@   modifies pkg:batching
 //@   nopanic
 //@   property C05 C06
+// (every property that relies on 'the acknowledgement a request receives is that of its own log' takes the non-sharing clause)
+//@   alsofor C02 C07 C10 C11 C16
